@@ -164,8 +164,21 @@ def directive_classes(log):
     return [Drop, Tag, Up]
 
 
-def plan_visitor(plan):
-    """The plan as a SchemaVisitor subclass instance (sites matched by names while traversing)."""
+def mark_in_place(x, text):
+    """The same edit as rebuild(), made ON the element the hook was handed (which is then returned): transform_schema hands the
+    hooks the elements of a CLONE, so the source schema must not see it."""
+    from py_gql.schema import EnumValue, ScalarType
+    if isinstance(x, EnumValue):
+        x.deprecation_reason = text
+        x.deprecated = True
+    elif not isinstance(x, ScalarType):
+        x.description = text
+    return x
+
+
+def plan_visitor(plan, in_place=False):
+    """The plan as a SchemaVisitor subclass instance (sites matched by names while traversing).  in_place: the "tag" effect edits
+    the element it is handed instead of returning a rebuilt one (same expected value)."""
     from py_gql.schema import SchemaVisitor
     idx = plan_index(plan)
 
@@ -176,7 +189,7 @@ def plan_visitor(plan):
             if e["d"] == "drop":
                 return None
             if e["d"] == "tag":
-                x = rebuild(x, "tag%d" % (e["n"] or 1))
+                x = (mark_in_place if in_place else rebuild)(x, "tag%d" % (e["n"] or 1))
             else:
                 from py_gql.schema import Field
                 x = Field(x.name, x.type, args=x.arguments, description=x.description, deprecation_reason=x.deprecation_reason,
